@@ -11,10 +11,18 @@ import (
 	"verif/overlay"
 )
 
-const (
-	verifDir = "/verif"
-	repoDir  = "/repo"
+// verifDir is /verif; VERIF_DIR overrides it for development worktrees.
+var (
+	verifDir = envOr("VERIF_DIR", "/verif")
+	repoDir  = envOr("VERIF_REPO", "/repo")
 )
+
+func envOr(k, d string) string {
+	if v := os.Getenv(k); v != "" {
+		return v
+	}
+	return d
+}
 
 func workDir() string { return filepath.Join(verifDir, ".work") }
 
